@@ -54,6 +54,8 @@ pub struct PayCmd {
     pub maxfee: u64,
     pub maxdelay: u64,
     pub retry_for: u64,
+    /// `label` of the pay request; lightningd copies it onto the parts it lists
+    pub label: Option<String>,
     pub groupid: u64,
     pub state: CmdState,
     pub parts_created: u32,
@@ -671,6 +673,9 @@ impl SimNode {
         if p.partid != 0 {
             v["partid"] = json!(p.partid);
         }
+        if let Some(l) = self.pay_cmds.get(p.cmd).and_then(|c| c.label.as_ref()) {
+            v["label"] = json!(l);
+        }
         if p.status == PartStatus::Complete {
             if let Some(ix) = pool().hash_index(&p.hash) {
                 v["payment_preimage"] = json!(rf::hex(&pool().preimages[ix]));
@@ -816,6 +821,7 @@ impl SimNode {
             maxfee,
             maxdelay,
             retry_for,
+            label: p.get("label").and_then(|l| l.as_str()).map(|l| l.to_string()),
             groupid,
             state: CmdState::Running,
             parts_created: 0,
